@@ -762,3 +762,52 @@ def aligned_blocks_bounded(tier, seed):
 UNITS.append(Bounded(PROP, 'get_aligned_blocks[the contract the CIGAR/MD units assume, on real records]', aligned_blocks_bounded,
                      'two reads of 5 alignment shapes (M, D, N, S, I) each, second read shifted 0..8 bases: 225 molecules',
                      'exhaustive run of the real function against the specification'))
+
+
+# ------------------------------------------------------------------------------ get_consensus_read: the record that is written
+# get_dedup_reads hands sequence, qualities, CIGAR, MD and start to get_consensus_read (recorded by a hook in the units above);
+# here: the record it returns carries exactly these, on the molecule's contig and strand, and goes through the tag writer
+def cread_setup(eng):
+    from pyvc import externals
+    eng.ghost.clear()
+    eng.ghost['tagged'] = []
+    eng.spec_env['GHOST'] = eng.ghost
+
+    def new_read(e, a, k, n):
+        return Obj('NewRead', {'_tags': {}})
+    stubs.STUBS['NewRead'] = {'methods': {'set_tag': lambda e, o, t, v, *a, **k: o.attrs['_tags'].__setitem__(t, v)},
+                              'props': {}, 'setters': {}}
+    externals.EXTRA['pysam.AlignedSegment'] = new_read
+    eng.loader.call_hooks[Q + 'get_max_mapping_qual'] = lambda e, f, a, k, n: named(INT, 'max_mapping_quality')
+    eng.loader.call_hooks[Q + 'write_tags_to_psuedoreads'] = lambda e, f, a, k, n: e.ghost['tagged'].extend(list(a[-1]))
+
+
+def cread_self(eng, name):
+    return Obj('Molecule', {'chromosome': named(STR, 'contig'), 'strand': named(BOOL, 'strand'), 'spanStart': named(INT, 'span_start'),
+                            'spanEnd': named(INT, 'span_end')}, info=eng.loader.classref(FM, 'Molecule'))
+
+
+consensus_read = Contract(
+    PROP, FM + '::Molecule.get_consensus_read', name='Molecule.get_consensus_read[sequence, qualities, CIGAR and MD given]',
+    params={'self': cread_self, 'target_file': lambda e, n: Obj('TargetBam', {'header': 'HEADER'}), 'read_name': 'str',
+            'consensus': 'str', 'phred_scores': lambda e, n: Obj('Phreds', {}), 'cigarstring': 'str', 'mdstring': 'str', 'start': 'int',
+            'supplementary': 'bool'},
+    cases=[{}, {'mdstring': 'none'}, {'start': 'none'}],
+    setup=cread_setup,
+    ensures={
+        'record_carries_what_it_was_given':
+            'result.query_sequence == consensus and (result.query_qualities is phred_scores) and result.cigarstring == cigarstring '
+            'and result.query_name == read_name and result.is_supplementary == supplementary',
+        'placed_on_the_contig_strand_and_start':
+            'result.reference_name == self.chromosome and result.is_reverse == self.strand and '
+            'result.reference_start == (start if start is not None else self.spanStart)',
+        'md_tag_iff_given': '(("MD" in result._tags) == (mdstring is not None)) and (mdstring is None or result._tags["MD"] == mdstring)',
+        'mapping_quality_is_the_maximum_of_the_molecule': 'result.mapping_quality == MAXQ',
+        'goes_through_the_pseudo_read_tag_writer': 'len(GHOST["tagged"]) == 1 and (GHOST["tagged"][0] is result)',
+    },
+    raises={},
+    assumptions=['pysam.AlignedSegment as a record of independent fields (A4); get_max_mapping_qual / write_tags_to_psuedoreads '
+                 'through hooks (the latter has its own units above)'],
+)
+consensus_read.pre_state = lambda eng, fr: eng.spec_env.update({'MAXQ': named(INT, 'max_mapping_quality')})
+UNITS.append(consensus_read)
